@@ -220,7 +220,10 @@ def run(ck):
         if not equal:
             return
         sh = nn.radio.shadow_value(st, 0x0A)
-        user = st.heap[nn.radio.ref.ident].fields.get(nn.radio.user_pipe0_field())
+        p0f_ = nn.radio.user_pipe0_field()
+        if p0f_ is None:
+            return
+        user = st.heap[nn.radio.ref.ident].fields.get(p0f_)
         for a, b in ((val[0], val[1]), (val[1], val[0])):
             if isinstance(a, Ref) and isinstance(sh, Ref) and a.ident == sh.ident and hasattr(b, "key") and hasattr(user, "key") and b.key() == user.key():
                 ok, _d = nn.radio.shadow_matches(st, 0x0A)
@@ -442,6 +445,10 @@ def run(ck):
                     agg.add("R07.4", fi, "the node's logical address is stored only by _begin() (and the constructor)", okw,
                             "%s assigns self.%s without re-opening the pipes%s: the node then listens on the addresses of its previous logical address" % (fi.qualname, af, why), x)
     agg.add("R07.4", f_begin2, "_begin() stores the logical address (anchor)", nwr >= 1, "no assignment to self.%s found" % af)
+    # the summaries above rest on the radio layer's pipe-0 discipline (open_rx_pipe(0, a) always remembers a, listen = True re-opens pipe 0
+    # on it whatever the registers held before): R08.x, shared with C08
+    from . import c08
+    c08.run_for(ck, Radio(ck), agg)
     agg.flush()
     ck.floor("R07", "_write/_net_update/_begin scenarios", nscen, 40)
     ck.floor("R07.1", "public entry points reaching the radio", nentry, 20)
